@@ -167,10 +167,10 @@ Proof.
   assert (Hn : 0 <= nb <= 256) by (destruct Hs; auto).
   eapply rd_bind; [apply rd_u32_in; exact Hb|].
   eapply rd_bind; [apply rd_u32_in; unfold in_u32, u32_max; lia|].
+  destruct (Z.gtb_spec nb 256) as [Hg|Hg]; [lia|].
   rewrite <- (app_nil_r (enc_words e _)).
   eapply rd_bind; [apply rd_bitmap; exact Hm|].
   intros r. cbn [app]. unfold pbind, ptick. cbn [fst].
-  replace (Z.to_nat (Z.min nb 257)) with (Z.to_nat nb) by lia.
   rewrite fn_collect_list; try lia.
   2:{ intros j Hj Hbit. apply Ho; [lia|exact Hbit]. }
   cbn [plift fst]. unfold fnset_new.
@@ -663,6 +663,11 @@ Proof.
   - destruct inval; discriminate Hd.
 Qed.
 
+Lemma is_data_id_len : forall e (p : psub), wfp p -> is_data_id (sub_id p) = true -> 20 <= len (enc_body e p).
+Proof.
+  intros e p H Hd. apply (is_data_len e p H). destruct p; cbn in Hd; try discriminate Hd; reflexivity.
+Qed.
+
 Definition fits (e : bool) (p : psub) : Prop := len (enc_body e p) <= 65535.
 
 Lemma sub_loop_enc : forall e ps fuel, Forall wfp ps -> Forall (fits e) ps -> (length ps <= fuel)%nat ->
@@ -678,14 +683,14 @@ Proof.
     destruct (enc_len_field e _ (len (enc_body e p)) Hle ltac:(pose proof (len_nonneg _ (enc_body e p)); lia)) as (b2 & b3 & E23 & Esl).
     rewrite E23. cbn [app sub_loop]. cbv zeta. rewrite Esl.
     rewrite shorter_app_false by lia.
-    pose proof (parse_sub_enc e p (flat_map (enc_sub e) t) Hp Hl) as Hps.
-    destruct (parse_sub (sub_id p) (flags_octet e (sub_flags p)) (len (enc_body e p)) (enc_body e p ++ flat_map (enc_sub e) t)) as [r0 c0].
-    cbn [fst] in Hps. subst r0.
-    assert (Ec : (len (enc_body e p) =? 0) && is_data (pcanon p) = false).
-    { destruct (is_data (pcanon p)) eqn:Ed; [|apply andb_false_r].
-      pose proof (is_data_len e p Hp Ed). destruct (Z.eqb_spec (len (enc_body e p)) 0); [lia|reflexivity]. }
+    assert (Ec : body_len_of (sub_id p) (len (enc_body e p)) (enc_body e p ++ flat_map (enc_sub e) t) = len (enc_body e p)).
+    { unfold body_len_of. destruct (is_data_id (sub_id p)) eqn:Ed; [|rewrite andb_false_r; reflexivity].
+      pose proof (is_data_id_len e p Hp Ed). destruct (Z.eqb_spec (len (enc_body e p)) 0); [lia|reflexivity]. }
     rewrite Ec. replace (Z.to_nat (len (enc_body e p))) with (length (enc_body e p)) by (unfold len; lia).
-    rewrite skipn_app_exact by reflexivity.
+    rewrite firstn_app_exact, skipn_app_exact by reflexivity.
+    pose proof (parse_sub_enc e p [] Hp Hl) as Hps. rewrite app_nil_r in Hps.
+    destruct (parse_sub (sub_id p) (flags_octet e (sub_flags p)) (len (enc_body e p)) (enc_body e p)) as [r0 c0].
+    cbn [fst] in Hps. subst r0.
     specialize (IH fuel Hwt Hft ltac:(lia)).
     destruct (sub_loop fuel (flat_map (enc_sub e) t)) as [r1 c1]. cbn [fst] in IH. subst r1. reflexivity.
 Qed.
